@@ -272,17 +272,17 @@ func (r *result) verdict() vt.Verdict {
 
 func TestProp(t *testing.T) {
 	vt.Run(t, prop,
-		vt.Sub[SBCase]{Prop: prop, Name: "superblock", Gen: genSBCase, Run: runSB, Classify: classifySB}.WithBudget(300, 7000),
-		vt.Sub[OHCase]{Prop: prop, Name: "objheader", Gen: genOH, Run: runOH, Classify: classifyOH}.WithBudget(900, 22000),
-		vt.Sub[DTCase]{Prop: prop, Name: "datatype", Gen: genDT, Run: runDT, Classify: classifyDT}.WithBudget(1300, 32000),
-		vt.Sub[DSCase]{Prop: prop, Name: "dataspace", Gen: genDS, Run: runDS, Classify: classifyDS}.WithBudget(400, 10000),
-		vt.Sub[LayoutCase]{Prop: prop, Name: "layout", Gen: genLayout, Run: runLayout, Classify: classifyLayout}.WithBudget(300, 8000),
-		vt.Sub[PipeCase]{Prop: prop, Name: "pipeline", Gen: genPipe, Run: runPipe, Classify: classifyPipe}.WithBudget(250, 6000),
-		vt.Sub[AttrCase]{Prop: prop, Name: "attribute", Gen: genAttr, Run: runAttr, Classify: classifyAttr}.WithBudget(600, 15000),
-		vt.Sub[AInfoCase]{Prop: prop, Name: "attrinfo", Gen: genAInfo, Run: runAInfo, Classify: classifyAInfo}.WithBudget(200, 5000),
-		vt.Sub[LinkCase]{Prop: prop, Name: "link", Gen: genLink, Run: runLink, Classify: classifyLink}.WithBudget(500, 13000),
-		vt.Sub[LInfoCase]{Prop: prop, Name: "linkinfo", Gen: genLInfo, Run: runLInfo, Classify: classifyLInfo}.WithBudget(200, 5000),
-		vt.Sub[StabCase]{Prop: prop, Name: "symtab", Gen: genStab, Run: runStab, Classify: classifyStab}.WithBudget(100, 2500),
-		vt.Sub[RegCase]{Prop: prop, Name: "registry", Gen: genReg, Run: runReg, Classify: classifyReg}.WithBudget(100, 600),
+		vt.Sub[SBCase]{Prop: prop, Name: "superblock", Gen: genSBCase, Run: runSB, Classify: classifySB}.WithBudget(1200, 7000),
+		vt.Sub[OHCase]{Prop: prop, Name: "objheader", Gen: genOH, Run: runOH, Classify: classifyOH}.WithBudget(3600, 22000),
+		vt.Sub[DTCase]{Prop: prop, Name: "datatype", Gen: genDT, Run: runDT, Classify: classifyDT}.WithBudget(5200, 32000),
+		vt.Sub[DSCase]{Prop: prop, Name: "dataspace", Gen: genDS, Run: runDS, Classify: classifyDS}.WithBudget(1600, 10000),
+		vt.Sub[LayoutCase]{Prop: prop, Name: "layout", Gen: genLayout, Run: runLayout, Classify: classifyLayout}.WithBudget(1200, 8000),
+		vt.Sub[PipeCase]{Prop: prop, Name: "pipeline", Gen: genPipe, Run: runPipe, Classify: classifyPipe}.WithBudget(1000, 6000),
+		vt.Sub[AttrCase]{Prop: prop, Name: "attribute", Gen: genAttr, Run: runAttr, Classify: classifyAttr}.WithBudget(2400, 15000),
+		vt.Sub[AInfoCase]{Prop: prop, Name: "attrinfo", Gen: genAInfo, Run: runAInfo, Classify: classifyAInfo}.WithBudget(800, 5000),
+		vt.Sub[LinkCase]{Prop: prop, Name: "link", Gen: genLink, Run: runLink, Classify: classifyLink}.WithBudget(2000, 13000),
+		vt.Sub[LInfoCase]{Prop: prop, Name: "linkinfo", Gen: genLInfo, Run: runLInfo, Classify: classifyLInfo}.WithBudget(800, 5000),
+		vt.Sub[StabCase]{Prop: prop, Name: "symtab", Gen: genStab, Run: runStab, Classify: classifyStab}.WithBudget(400, 2500),
+		vt.Sub[RegCase]{Prop: prop, Name: "registry", Gen: genReg, Run: runReg, Classify: classifyReg}.WithBudget(400, 600),
 	)
 }
